@@ -184,6 +184,19 @@ func instrRound2(pts pointSet, r *rand.Rand, tier string) []planT {
 		add("none", h, 4, with(func(p *pspec) { p.prov = "pre.err" }), with(func(p *pspec) { p.agg = "pre.err" }))
 		add("none", h, 4, with(func(p *pspec) { p.fail = "warmup" }), with(func(p *pspec) { p.fail = "newgun@0" }), planA)
 	}
+	// … every statement of the pool goroutine of Engine.Run: the second and the third pool to get there wait until
+	// Engine.Run has returned (all three pools fail at once, whichever comes first ends the run)
+	if goRun := pts.pick("Engine.Run/", ".call:Run"); goRun != "" && engDefer != "" {
+		lit := goRun[:strings.LastIndex(goRun, ".call:Run")+1]
+		for _, p := range pts {
+			if !strings.HasPrefix(p, lit) || p == goRun {
+				continue
+			}
+			h := "hold=" + p + "~2@" + engDefer + ";" + p + "~3@" + engDefer
+			add("none", h, 4, with(func(p *pspec) { p.fail = "warmup" }), with(func(p *pspec) { p.fail = "newgun@0" }),
+				with(func(p *pspec) { p.fail = "sched@1"; p.per = 0 }))
+		}
+	}
 	if h := hold(engSend, engSend+"~2"); h != "" && engSend != "" {
 		add("none", h, 4, planA, with(func(p *pspec) { p.prov = "late.err" }))
 		add("none", h, 4, with(func(p *pspec) { p.agg = "pre.err" }), with(func(p *pspec) { p.prov = "pre.err" }))
@@ -237,6 +250,11 @@ func instrRound2(pts pointSet, r *rand.Rand, tier string) []planT {
 		add("none", "cli="+sg, 4, with(func(p *pspec) { p.su = "inf2"; p.ammo = -1; p.shots = 5 }))
 	}
 	add("none", "cli=term", 5, with(func(p *pspec) { p.ammo = -1; p.shots = 1000000; p.slow = "agg" }))
+	// a component that needs 300 ms to stop: the process must not exit before Engine.Wait has returned
+	add("none", "cli=run", 4, with(func(p *pspec) { p.prov = "pre.err"; p.slow = "agg300" }))
+	add("none", "cli=run", 4, with(func(p *pspec) { p.fail = "panic@1"; p.slow = "prov300"; p.ammo = -1; p.shots = 1000000 }))
+	add("none", "cli=int", 4, with(func(p *pspec) { p.ammo = -1; p.shots = 1000000; p.slow = "agg300" }))
+	add("none", "cli=term", 4, with(func(p *pspec) { p.ammo = -1; p.shots = 1000000; p.slow = "prov300" }))
 	// the signal at a point of the engine's own work
 	stride := 9
 	if thorough {
